@@ -32,6 +32,7 @@ fn main() {
             steps: 40,
             low_quality: rng.chance(0.6),
             avoid_coincident: cfg.vis.own_use + cfg.vis.own_collect > 0.0,
+            low_conf: rng.chance(0.15),
         };
         let h = HistOpts { len: if cli.small { 6 } else { 30 + rng.usize(51) }, lifecycle_ops: false, clear_wasted: false, auto_waste_ops: false, batches: false, empty_calls: false };
         let ops = gen_history(&mut rng, &w, &h);
